@@ -96,6 +96,15 @@ func VH_C14_RecvDeadline() {
 	vReach("deadline")
 	vAssert(err == nil, "Recv never succeeded")
 	vAssert(vBytesEq(got, data), "retried Recv lost the chunks consumed by the timed-out call")
+	// the next message is not affected by what happened inside the previous one
+	next := vBytes("next", 2)
+	b.SetRecvTimeout(time.Hour)
+	go func() {
+		ch <- &PacketData{Payload: next[0:1]}
+		ch <- &PacketData{Payload: next[1:2], FinalChunk: true}
+	}()
+	got2, err := b.Recv()
+	vAssert(err == nil && vBytesEq(got2, next), "the message after a retried Recv is merged with leftovers of the previous one")
 }
 
 // VH_C14_SendDeadline: the send deadline expires inside a message (the pipe
@@ -131,4 +140,31 @@ func VH_C14_SendDeadline() {
 	got := <-done
 	vAssert(vBytesEq(got, data), "peer received a message that no successful Send carried (partial chunks of the timed-out Send merged in)")
 	close(b.quit)
+}
+
+// VH_C14_Large: symbolic payload length and symbolic chunk size (length at
+// most `maxchunks` chunks): the number of packets is max(1, ceil(L/M)), each
+// at most M bytes, only the last one final, and the single Recv result has
+// the same length and the same byte at every index.
+func VH_C14_Large() {
+	l, m := vInt("len"), vInt("chunk")
+	k := vParam("maxchunks", 3)
+	vAssume(m >= 1 && m <= 1<<20 && l >= 0 && l <= k*m)
+	a, b, ch := vPipe(m)
+	data := vStream("d", l)
+	vAssert(a.Send(data) == nil, "Send failed")
+	n := len(ch)
+	vReach("large-sent")
+	want := 1
+	if l > m {
+		want = (l + m - 1) / m
+	}
+	vAssert(n == want, "number of packets is not max(1, ceil(len/chunk))")
+	got, err := b.Recv()
+	vAssert(err == nil && len(got) == l, "Recv failed or returned a different length")
+	vAssert(len(ch) == 0, "chunks left over after Recv")
+	j := vInt("j")
+	if err == nil && j >= 0 && j < l && j < len(got) {
+		vAssert(got[j] == data[j], "Recv returned different bytes than were sent")
+	}
 }
